@@ -179,6 +179,12 @@ def extract():
     gt = strip_comments(read("cstree/src/green/token.rs"))
     facts["greenTokenMarkersUnconditional"] = bool(re.search(r"unsafe\s+impl\s+Send\s+for\s+GreenToken\s*\{\s*\}", gt)) and bool(
         re.search(r"unsafe\s+impl\s+Sync\s+for\s+GreenToken\s*\{\s*\}", gt))
+    # ---- derive macro: comparator of the generated range assertion ------------------------------
+    dl = strip_comments(read("cstree-derive/src/lib.rs"))
+    m = re.search(r"assert!\s*\(\s*raw\.0\s*(<=|<)\s*#variant_count", dl)
+    facts["deriveAssertLt"] = None if not m else (m.group(1) == "<")
+    m = re.search(r"let\s+variant_count\s*=\s*syntax_kind_enum\.variants\.len\(\)\s*as\s+u32\s*;", dl)
+    facts["deriveCountIsVariantCount"] = bool(m)
     return facts, notes
 
 
